@@ -11,7 +11,8 @@ of the reply (bulk / flat array / nested array = HSCAN), age of the backend conn
 (config in force when it was made; connections are made again).  TLC checks StoredForm, ReadBack, OnlyWhenEnabled exhaustively
 for the code's constants and must find a counterexample for each broken variant: FixOnce = FALSE (compression per send),
 HookDepth = 1 (hooks do not descend into nested arrays), OwnBytes = FALSE (request keeps pointing into the scratch
-buffer), ConnConfig = "at-connect" (a connection's filter works with the config of connection time: ReadBack, OffMeansOff),
+buffer), OwnFrame = FALSE (short frames put together in storage shared by all compressions: StoredForm under two writers at the
+same instant), ConnConfig = "at-connect" (a connection's filter works with the config of connection time: ReadBack, OffMeansOff),
 BareUpdate = "off-dropped" (a bare `enable: false` acknowledged and carried out as "no section": ReadBack), ReadLimit = 512 KiB
 (decompression cuts large values: ReadBack).  MC_Compress_dims.cfg: connection age, refused updates and absolute sizes together, clean.
 That the windows the mandatory strata consist of are reachable is shown by the strata themselves (TLC emits them) and by
@@ -38,7 +39,10 @@ snappy; disabled commands get the error and never show up in a node's command lo
  * TLC-simulated histories (seeded; config switches, writes with 1-3 values and 0-2 redirections, reads);
  * every CompressPipe behaviour (pipelines up to length 3, thorough 4, every interleaving of hand-over and take) forced
    on the real writer through the hook points client.loopWrite.select / client.Send.enqueued, one or two sessions;
- * concurrent writers with slots changing owner and compression switched off and on;
+ * concurrent writers with slots changing owner and compression switched off and on; and short streams: eight backend
+   connections, 32 clients, values whose snappy stream is <= 58 bytes (and just above), unique per writer and write; the
+   writers of all backend connections are held at hook client.loopWrite.select while every client hands over a burst
+   and are let go together, every stored value decoded independently and read back;
  * white box: compress/decompress of random values of all lengths and entropies, break-even sweep, single disabled commands.
 """
 import concurrent.futures
@@ -82,6 +86,7 @@ def run(ctx):
         "dims": lambda: ctx.mc("redis", "Compress", "MC_Compress_dims.cfg", **small),
         "pinned": lambda: ctx.mc("redis", "Compress", "MC_Compress_pinned.cfg", expect_violated=["StoredForm", "ReadBack"], count=False, **small),
         "flathook": lambda: ctx.mc("redis", "Compress", "MC_Compress_flathook.cfg", expect_violated=["ReadBack"], count=False, **small),
+        "shared-frame": lambda: ctx.mc("redis", "Compress", "MC_Compress_sharedframe.cfg", expect_violated=["StoredForm"], count=False, **small),
         "scratch": lambda: ctx.mc("redis", "Compress", "MC_Compress_scratch.cfg", expect_violated=["StoredForm"], count=False, **small),
         "conn-frozen": lambda: ctx.mc("redis", "Compress", "MC_Compress_connfrozen.cfg", expect_violated=["ReadBack", "OffMeansOff"], count=False, **small),
         "bare-dropped": lambda: ctx.mc("redis", "Compress", "MC_Compress_baredropped.cfg", expect_violated=["ReadBack"], count=False, **small),
@@ -138,7 +143,7 @@ def _drivers(ctx, done, num):
     ran = _parallel({
         "replay": lambda: ctx.harness(["c13-replay", "-in", bfile, "-out", rfile, "-workers", "4"], timeout=1500, allow_fail=True),
         "pipeline": lambda: ctx.harness(["c13-pipeline", "-in", pfile, "-out", prfile], timeout=1500, allow_fail=True),
-        "concurrent": lambda: ctx.harness(["c13-concurrent", "-out", cfile, "-clients", "8", "-ops", "1500" if ctx.thorough else "400"],
+        "concurrent": lambda: ctx.harness(["c13-concurrent", "-out", cfile, "-clients", "8", "-ops", "1500" if ctx.thorough else "400", "-short", "4608" if ctx.thorough else "1536"],
                                           timeout=1500, allow_fail=True),
         "values": lambda: ctx.harness(["c13-values", "-out", vfile, "-n", "20000" if ctx.thorough else "2000"], timeout=900, allow_fail=True),
     }, 4)
@@ -224,7 +229,7 @@ def _drivers(ctx, done, num):
                 ctx.notes.append("concurrent (%d backend failures): %s" % (r.get("failures", 0), b["what"][:300]))
                 continue
             ctx.violation(b["sig"], b["what"], r)
-    _stands_or_inconclusive(ctx, rc, se, "c13-concurrent", bool(final) and final[0]["writes"] > 500 and final[0]["packed"] > 100,
+    _stands_or_inconclusive(ctx, rc, se, "c13-concurrent", len(final) == 2 and final[0]["writes"] > 500 and final[0]["packed"] > 100 and final[1]["packed"] > 10000,
                             "concurrent writers: %s" % (cres[:1],))
 
     # ---- white box
